@@ -88,6 +88,9 @@ func genC19() *rapid.Generator[c19Case] {
 				if i != 2 && k == "fipwatch" { // the FloatingIP informer delivers its events from one goroutine
 					k = ops[2]
 				}
+				if i == 2 && c.Target == "ipam" && rapid.Bool().Draw(t, "watcher") {
+					k = "fipwatch" // ... and that goroutine is busy with an administrator who reserves and withdraws addresses
+				}
 				w = append(w, rop{K: k, A: rapid.IntRange(0, 7).Draw(t, "a"), B: rapid.IntRange(0, 7).Draw(t, "b")})
 			}
 			c.Workers = append(c.Workers, w)
@@ -283,15 +286,17 @@ func runIPAM(c *c19Case) *overlapTracker {
 			_, _ = reg.Gather()
 		case "fipwatch":
 			// an administrator creates / deletes a labelled FloatingIP object; the watch event reaches the handlers NewCrdIPAM registered
-			ip := fmt.Sprintf("10.0.70.%d", 2+op.A)
-			if op.B%2 == 0 {
+			ip := fmt.Sprintf("10.0.70.%d", 2+op.A%4)
+			obj, err := w.Galaxy.GalaxyV1alpha1().FloatingIPs().Get(context.TODO(), ip, metav1.GetOptions{})
+			if err != nil {
+				// no object: reserve the address
 				if w.AddReserved(ip) == nil {
 					if obj, err := w.Galaxy.GalaxyV1alpha1().FloatingIPs().Get(context.TODO(), ip, metav1.GetOptions{}); err == nil {
 						w.DeliverFIPEvent(true, obj)
 					}
 				}
-			} else if obj, err := w.Galaxy.GalaxyV1alpha1().FloatingIPs().Get(context.TODO(), ip, metav1.GetOptions{}); err == nil &&
-				obj.Labels[constant.ReserveFIPLabel] == "" && len(obj.Labels) > 0 {
+			} else if _, reserved := obj.Labels[constant.ReserveFIPLabel]; reserved {
+				// the administrator's own object: withdraw the reservation
 				if w.DelReserved(ip) == nil {
 					w.DeliverFIPEvent(false, obj)
 				}
